@@ -17,7 +17,14 @@ THEME6 = ("This time break a SECONDARY CLAUSE of the property rather than its he
           "exactly when not Optional, exactly those names in __all__), what must hold for EVERY member (every $ref, every generated file, "
           "every parameter of the signature, every module), or the ORDER of things. The regression should leave the headline behaviour "
           "intact. Prefer anchored files the earlier participants did not touch. Earlier rounds asked for the following, still welcome: ")
-theme = THEME5 if rnd == "5" else (THEME6 if rnd == "6" else "")
+THEME7 = ("This round is FREE-STYLE with one constraint: put the regression where nobody has looked yet. UNTOUCHED below lists the "
+          "anchored files no earlier participant changed - use one of them if the property's behaviour can be broken there at all "
+          "(say so if it cannot, and then use any file the behaviour flows through, but a function none of the earlier changes is in). "
+          "Think like a maintainer under time pressure: a quick fix for an unrelated issue, a micro-optimisation, a lint-driven "
+          "rewrite (comprehension to generator, `== None` to `is None`, `dict()` to literal, f-string conversion, early return), a "
+          "py2->py3 idiom, an off-by-one when switching between enumerate/range/slices, a default argument that is mutable, an "
+          "exception handler that is too broad. Earlier rounds asked for the following, all still welcome: ")
+theme = THEME5 if rnd == "5" else (THEME6 if rnd == "6" else (THEME7 if rnd == "7" else ""))
 out = "/tmp/wt/prompts%s" % rnd
 os.makedirs(out, exist_ok=True)
 tpl = open("/tmp/wt/prompts3/C01.txt").read()
@@ -49,6 +56,12 @@ for pid, p in props.items():
              "IMPORTANT: the triggering input must lie INSIDE the domain the property is quantified over (as written above) - a regression "
              "that only shows on inputs the property does not talk about does not count.\n\n"
              % (len(prev), "; ".join("(%d) %s" % (i + 1, x) for i, x in enumerate(prev))))
+    if rnd == "7":
+        touched = set()
+        for d in glob.glob("/verif/seeded/%s-*/patch.diff" % pid):
+            touched.update(re.findall(r"^\+\+\+ b/(\S+)", open(d).read(), re.M))
+        untouched = [f for f in p["anchors"]["files"] if f not in touched]
+        body = body.replace("Produce a DIFFERENT one:", "UNTOUCHED anchored files: %s. Produce a DIFFERENT one:" % (", ".join(untouched) or "(none left)"))
     body = body.replace("Aim for a regression whose effect depends on the SHAPE OF THE DATA", theme + "Aim for a regression whose effect depends on the SHAPE OF THE DATA")
     text = tpl[:head_end].replace("/tmp/wt/C01c", wt) + body + tpl[task_start:].replace("/tmp/wt/C01c", wt).replace("demo_C01", "demo_%s" % pid)
     open(os.path.join(out, pid + ".txt"), "w").write(text)
